@@ -39,7 +39,9 @@ def gen_workload(kind, seed, size):
         return Workload("%s:%d" % (kind, seed), t.text(), t.facts, meta, "generated")
     g = {"c03": gen.gen_c03, "c03c": gen.gen_c03c, "c22": gen.gen_c22, "c20": gen.gen_c20, "c21": gen.gen_c21}[kind]
     p = g(seed, size)
-    return Workload("%s:%d" % (kind, seed), p.text(), p.facts, p.meta, "generated")
+    facts = dict(p.facts)
+    facts.update(p.aux_facts)  # additional fact files read through explicit IO directives
+    return Workload("%s:%d" % (kind, seed), p.text(), facts, p.meta, "generated")
 
 
 def seeds_for(prop):
@@ -291,6 +293,9 @@ def oracle_c20(w, ref, res, case):
                     continue
             # own class for the shape recorded in known_findings.json: a relation that is loaded from facts and also has a
             # non-recursive rule (the profile then reports only the tuples produced by the rule)
-            cls = "profile-count-input-derived:" if rel in w.meta.get("input_derived_nonrec", []) and counts[rel] < len(lines) else "profile-count:"
+            # (exactly: the reported number is the number of tuples held minus the number of loaded ones)
+            nloaded = len(set(tuple(t) for t in w.facts.get(rel, [])))
+            known_shape = rel in w.meta.get("input_derived_nonrec", []) and counts[rel] == len(lines) - nloaded
+            cls = "profile-count-input-derived:" if known_shape else "profile-count:"
             f.append((cls + rel, "profile reports %d tuples for %s, the relation holds %d" % (counts[rel], rel, len(lines))))
     return f
